@@ -178,6 +178,8 @@ func checkC09(c *core.Ctx) {
 	c09Float(c, g)
 	c09Intervals(c)
 	c09Visitor(c)
+	c.Rule("ORDABS.map-struct-constructors-canonical", "a printed map or struct parses back to constructor expressions whose evaluation sorts the entries again: ast.Map / ast.Struct build one constant from the same entries in every supply order, also for keys that agree in hash and Symbol field (obligation shared with C08)", 2)
+	c.Under("ORDABS.map-struct-constructors-canonical", []string{rC08Order}, func() { c08OrderFnv(c) })
 }
 
 func c09Escape(c *core.Ctx, g grammarFacts) {
